@@ -137,7 +137,7 @@ def main():
                      "kind_free_text": "runtime monitoring harness: generated workloads drive the real code; monitors compare observations with independent reference models"}],
         "checks": checks,
         "not_applicable": na,
-        "notes": "All checks: exit 0 held / 1 VIOLATION / 2 INCONCLUSIVE. Honour VERIF_SEED, VERIF_TIER, VERIF_REPO. known_findings.json lists open findings (printed as KNOWN-FINDING) and fixed ones. Self-validation material: selftest/ (71 hand-made mutants), seeded/ (174 property-breaking changes by independent sub-agents in nine flavours a-i), benign/ (120 property-preserving changes p-u); DESIGN.md section 12 records first-contact results and every strengthening.",
+        "notes": "All checks: exit 0 held / 1 VIOLATION / 2 INCONCLUSIVE. Honour VERIF_SEED, VERIF_TIER, VERIF_REPO. known_findings.json lists open findings (printed as KNOWN-FINDING) and fixed ones. Self-validation material: selftest/ (71 hand-made mutants), seeded/ (180 property-breaking changes by independent sub-agents in nine flavours a-i), benign/ (120 property-preserving changes p-u); DESIGN.md section 12 records first-contact results and every strengthening.",
     }
     with open(os.path.join(HERE, "MANIFEST.json"), "w") as f:
         json.dump(m, f, indent=1)
